@@ -5,4 +5,4 @@ From SaoVerif Require Import Base.Prelude Model.Driver.
 Require Extraction.
 Require Import ExtrOcamlBasic.
 Extraction Language OCaml.
-Extraction "model.ml" check_step model_post.
+Extraction "model.ml" check_step model_post state_metrics.
